@@ -8,7 +8,9 @@ for arg in sys.argv[1:]:
     pid, checks = arg.split(":"); checks = checks.split(",")
     d = "/tmp/mut/out/" + pid
     for diff in sorted(glob.glob(os.path.join(d, "m*.diff"))):
-        n = re.search(r"m(\d+)\.diff", diff).group(1); name = "%s-m%s" % (pid, n)
+        mm = re.search(r"/m(\d+)\.diff$", diff)
+        if not mm: continue
+        n = mm.group(1); name = "%s-m%s" % (pid, n)
         if os.environ.get("MUT_ONLY") and n not in os.environ["MUT_ONLY"].split(","): continue
         cf = "/tmp/mut/confirm/%s.json" % name
         if not os.path.exists(cf) or not open(cf).read().strip(): print(name, "not confirmed yet"); continue
